@@ -116,16 +116,17 @@ def gen_requests():
                 cl.append("ensures[C01] err == nil ==> forall k in len(coils)..8*len(res.Data) :: (res.Data[k/8] >> uint(k%8)) & 1 == 0")
             block(ctor_sig(name, kind, fr), cl)
             # Bytes
+            e11 = ",C11" if kind == "fc15" else ""  # C11: the coils written are the coils on the wire (write / read-back)
             if fr == "TCP":
-                cl = enc_requires(kind, "r") + ["safety[C01,C03]", "modifies[C01] nothing", "fresh[C01] res"]
-                cl.append(f"ensures[C01,C09,C18] mbapOK(res, r.TransactionID, {pdu_len(kind, 'r')}) && {pdu_req(kind, fc, 'res', 6, 'r')}")
+                cl = enc_requires(kind, "r") + [f"safety[C01,C03{e11}]", "modifies[C01] nothing", "fresh[C01] res"]
+                cl.append(f"ensures[C01,C09,C18{e11}] mbapOK(res, r.TransactionID, {pdu_len(kind, 'r')}) && {pdu_req(kind, fc, 'res', 6, 'r')}")
             else:
                 # RTU: weakest pre-condition (C03 speaks of every frame the encoder can emit); layout under well-formedness
                 pf = payload_field(kind)
-                cl = ([f"requires len(r.{pf}) <= 65000"] if pf else []) + ["safety[C01,C03]", "modifies[C01] nothing", "fresh[C01] res"]
+                cl = ([f"requires len(r.{pf}) <= 65000"] if pf else []) + [f"safety[C01,C03{e11}]", "modifies[C01] nothing", "fresh[C01] res"]
                 cl.append(f"ensures[C01,C03,C09] len(res) == {pdu_len(kind, 'r')} + 2")
                 ante = f"len(r.{pf}) <= 255 ==> " if pf else ""
-                cl.append(f"ensures[C01,C03,C09] {ante}{pdu_req(kind, fc, 'res', 0, 'r')}")
+                cl.append(f"ensures[C01,C03,C09{e11}] {ante}{pdu_req(kind, fc, 'res', 0, 'r')}")
                 cl.append("ensures[C03,C01] crcTrailer(res, len(res))")
             block(f"(r {T}) Bytes() (res []byte)", cl)
         # ExpectedResponseLength
